@@ -1,5 +1,5 @@
 CFG = {
-    "modules": ["Parsley.Props.C02", "Parsley.Props.C16", "Parsley.Props.C02Struct", "Parsley.Lemmas.SpellEncoder", "Parsley.Props.C02Encoder", "Parsley.Props.C02Wide", "Parsley.Props.C02Dec", "Parsley.Props.C02Hash"],
+    "modules": ["Parsley.Props.C02", "Parsley.Props.C16", "Parsley.Props.C02Struct", "Parsley.Lemmas.SpellEncoder", "Parsley.Props.C02Encoder", "Parsley.Props.C02Wide", "Parsley.Props.C02Dec", "Parsley.Props.C02Hash", "Parsley.Props.C02Sign"],
     "theorems": ["Parsley.C02.name_window_decoder_eq", "Parsley.C02.name_spelling_decodes", "Parsley.C02.name_roundtrip", "Parsley.C02.integer_spec", "Parsley.C02.integer_roundtrip",
                  "Parsley.C02.hexstring_spec", "Parsley.C02.litstring_roundtrip", "Parsley.C02.litLoop_balanced",
                  "Parsley.C02.real_spec", "Parsley.C02.ws_loop_eq_skip", "Parsley.C02.skipWs_run", "Parsley.C02.wsRun_run",
@@ -28,7 +28,11 @@ CFG = {
                  "Parsley.C02.numberOrRef_dec_overflow", "Parsley.C02.accFrac_overflow", "Parsley.C02.parseInternal_trailing_dot",
                  # name tokens with raw `#` (a `#` not followed by two hex digits is a literal byte): the model's windows(3) loop computes the spec Spec/NameLit.lean nameDenote
                  "Parsley.C02.name_model_eq_nameDenote", "Parsley.C02.name_raw_hash_parse", "Parsley.C02.name_null_code_rejected",
-                 "Parsley.C02.nameDenote_hash_literal", "Parsley.C02.nameDenote_hash_code"],
+                 "Parsley.C02.nameDenote_hash_literal", "Parsley.C02.nameDenote_hash_code",
+                 # C02_12: explicit signs on the two numbers of a reference (Props/C02Sign.lean): `<sign>n ws+ <sign>g ws+ R` - sign none / `+` on any value in range,
+                 # `-` before a digit string denoting 0, any zero padding, any non-empty whitespace/comment runs, end of buffer or a non-regular byte behind the `R` -
+                 # parses to Reference(n, g) with the cursor immediately after the `R` (generalises reference_spec / spell_parse_ref; Spells.ref itself is not extended)
+                 "Parsley.C02.signed_reference_spec", "Parsley.C02.spell_parse_signed_ref", "Parsley.C02.int_at_signed"],
     "partial": {
                 "(depth)": "the depth hypothesis of spell_parse is on the SPELLING depth d (index of `Spells`), not on depth(v): a dropped null-valued "
                 "entry still needs one nesting level (`<</A null>>` has value depth 1 but is rejected at cur+1 = max by the real parser and the model); "
